@@ -58,6 +58,14 @@ pub fn gen_c14(sh: &mut Shards, o: &Opts) -> serde_json::Value {
     by_k2.sort_by_key(|&(m, t, p)| (((u32::from(p) << 4) | u32::from(t)) & 0xff, m));
     triples.extend(by_k1);
     triples.extend(by_k2);
+    // reference outputs per matrix code (labels BT.1886 / BT.709), computed once up front so that inside the table the
+    // last conversion of one row and the first of the next are both the rows' OWN configurations (call adjacency)
+    let refs: Vec<(Option<Rgb>, Option<Yuv<u8>>)> = (0u8..15)
+        .map(|m| {
+            let cref = Cfg { mc: m, tc: 1, cp: 1, full: false, n: 8, ssx: 0, ssy: 0 };
+            (y2r(&cref).1, r2y(&cref, 1, 1).1)
+        })
+        .collect();
     {
         {
             for &(m, t, p) in &triples {
@@ -67,10 +75,7 @@ pub fn gen_c14(sh: &mut Shards, o: &Opts) -> serde_json::Value {
                 let rgb = || Rgb::new(RGB_PX.to_vec(), 2, 2, tc(t), cp(p)).expect("rgb");
                 let lin = || LinearRgb::new(RGB_PX.to_vec(), 2, 2).expect("lin");
                 let xyb = || Xyb::from(lin());
-                // the reference outputs (same matrix with BT.1886 / BT.709 labels) are computed FIRST, so that the last
-                // conversions of one row and the first of the next are both the rows' own configurations (call adjacency)
-                let (_, ref_y2r) = y2r(&cref);
-                let (_, ref_r2y) = r2y(&cref, 1, 1);
+                let (ref_y2r, ref_r2y) = &refs[m as usize];
                 let mut s = String::new();
                 let _ = write!(s, "\"ev\":\"c14row\",\"mc\":{m},\"tc\":{t},\"cp\":{p},\"res\":{{");
                 let (a, out_y2r) = y2r(&c);
@@ -111,9 +116,9 @@ pub fn gen_c14(sh: &mut Shards, o: &Opts) -> serde_json::Value {
                     }
                 };
                 jr(&mut s, "y2r", &out_y2r);
-                jr(&mut s, "y2r_ref", &ref_y2r);
+                jr(&mut s, "y2r_ref", ref_y2r);
                 jy(&mut s, "r2y", &out_r2y);
-                jy(&mut s, "r2y_ref", &ref_r2y);
+                jy(&mut s, "r2y_ref", ref_r2y);
                 sh.emit(&s);
                 n += 1;
             }
